@@ -162,6 +162,14 @@ impl ConnectionLimits {
     }
 }
 
+#[cfg(litep2p_verif)]
+impl ConnectionLimits {
+    /// Read accessor for the verification adapter: (counted incoming, counted outgoing).
+    pub(crate) fn verif_counts(&self) -> (usize, usize) {
+        (self.incoming_connections.len(), self.outgoing_connections.len())
+    }
+}
+
 #[cfg(test)]
 mod tests {
     use super::*;
